@@ -1,8 +1,8 @@
+import DepsDev.Model.Resolve.ClientWire
 import DepsDev.Drive.Loop
 open DepsDev
 
-/-- Stub: replaced by the property's builder. -/
-def handleC14 : List String → String
-  | _ => "bad-op"
+/-- C14 driver: one `seq` line = one history of the LocalClient model. -/
+def handleC14 (args : List String) : String := (Resolve.Wire.handleC14 args).getD "bad-op"
 
 def main : IO Unit := Drive.runDriver "C14" handleC14
